@@ -33,12 +33,222 @@ fn deps() {
     }
 }
 
+
+// ---------------------------------------------------------------- normpath: all short byte strings against an independent reference
+fn esc(v: &[u8]) -> String {
+    String::from_utf8_lossy(v).replace('\\', "\\\\").replace('"', "\\\"")
+}
+
+fn ref_is_clean(v: &[u8]) -> bool {
+    if v.is_empty() {
+        return false;
+    }
+    if v == b"." || v == b"/" {
+        return true;
+    }
+    let rooted = v[0] == b'/';
+    let body = if rooted { &v[1..] } else { v };
+    let mut leading = !rooted;
+    for c in body.split(|&b| b == b'/') {
+        if c.is_empty() || c == b"." {
+            return false;
+        }
+        if c == b".." {
+            if !leading {
+                return false;
+            }
+        } else {
+            leading = false;
+        }
+    }
+    true
+}
+
+/// (parent steps, names) reached by walking `v` in a tree without symbolic links
+fn ref_den(v: &[u8]) -> (usize, Vec<Vec<u8>>) {
+    let rooted = !v.is_empty() && v[0] == b'/';
+    let mut ups = 0usize;
+    let mut names: Vec<Vec<u8>> = Vec::new();
+    for c in v.split(|&b| b == b'/') {
+        if c.is_empty() || c == b"." {
+            continue;
+        }
+        if c == b".." {
+            if names.pop().is_none() && !rooted {
+                ups += 1;
+            }
+        } else {
+            names.push(c.to_vec());
+        }
+    }
+    (ups, names)
+}
+
+fn normpath_bytes(v: &[u8]) -> Vec<u8> {
+    use std::ffi::OsStr;
+    use std::os::unix::ffi::OsStrExt;
+    let p = std::path::Path::new(OsStr::from_bytes(v));
+    redo::normpath(p).as_os_str().as_bytes().to_vec()
+}
+
+fn normpath_probe() {
+    let mut checked = 0usize;
+    let mut fails = 0usize;
+    let mut report = |input: &[u8], out: &[u8], clause: &str| {
+        if fails < 40 {
+            println!(
+                "{{\"probe\":\"normpath\",\"input\":\"{}\",\"output\":\"{}\",\"clause\":\"{}\"}}",
+                esc(input),
+                esc(out),
+                clause
+            );
+        }
+        fails += 1;
+    };
+    for (alphabet, maxlen) in [(&b"/.a"[..], 10usize), (&b"/.ab"[..], 8usize)] {
+        for len in 0..=maxlen {
+            let mut idx = vec![0usize; len];
+            loop {
+                let v: Vec<u8> = idx.iter().map(|&i| alphabet[i]).collect();
+                let out = normpath_bytes(&v);
+                checked += 1;
+                if out.is_empty() {
+                    report(&v, &out, "normpath.never_empty");
+                }
+                if !ref_is_clean(&out) {
+                    report(&v, &out, "normpath.result_is_clean");
+                }
+                if !v.is_empty() && (out.first() == Some(&b'/')) != (v[0] == b'/') {
+                    report(&v, &out, "normpath.keeps_rootedness");
+                }
+                if ref_is_clean(&v) && out != v {
+                    report(&v, &out, "normpath.clean_is_fixpoint");
+                }
+                if ref_den(&out) != ref_den(&v) {
+                    report(&v, &out, "normpath.same_location");
+                }
+                if normpath_bytes(&out) != out {
+                    report(&v, &out, "normpath.idempotent");
+                }
+                // next string
+                let mut k = len;
+                loop {
+                    if k == 0 {
+                        break;
+                    }
+                    k -= 1;
+                    idx[k] += 1;
+                    if idx[k] < alphabet.len() {
+                        break;
+                    }
+                    idx[k] = 0;
+                    if k == 0 {
+                        k = usize::MAX;
+                        break;
+                    }
+                }
+                if len == 0 || k == usize::MAX {
+                    break;
+                }
+            }
+        }
+    }
+    println!("{{\"probe\":\"normpath\",\"summary\":true,\"checked\":{},\"failures\":{}}}", checked, fails);
+}
+
+// ---------------------------------------------------------------- relpath: spellings of one file in a small tree with one symlinked directory
+fn ref_rel(t: &std::path::Path, base: &std::path::Path) -> std::path::PathBuf {
+    // both canonical absolute: component diff
+    let tc: Vec<_> = t.components().collect();
+    let bc: Vec<_> = base.components().collect();
+    let mut n = 0;
+    while n < tc.len() && n < bc.len() && tc[n] == bc[n] {
+        n += 1;
+    }
+    let mut r = std::path::PathBuf::new();
+    for _ in n..bc.len() {
+        r.push("..");
+    }
+    for c in &tc[n..] {
+        r.push(c);
+    }
+    r
+}
+
+fn relpath_probe() {
+    use std::fs;
+    let top = env::current_dir().unwrap().join("top");
+    let _ = fs::remove_dir_all(&top);
+    fs::create_dir_all(top.join("src/lib")).unwrap();
+    fs::create_dir_all(top.join("d/e")).unwrap();
+    std::os::unix::fs::symlink("src/lib", top.join("lib")).unwrap();
+    let top = fs::canonicalize(&top).unwrap();
+    let mut checked = 0usize;
+    let mut fails = 0usize;
+    let prefixes = [
+        "", "./", "src/", "src/lib/", "lib/", "lib/../", "src/../", "d/e/../", "d//e/", "lib/./", "../top/", "d/../lib/", "src/lib/../../",
+    ];
+    for cwd_rel in ["", "src", "d/e", "lib"] {
+        let cwd = top.join(cwd_rel);
+        env::set_current_dir(&cwd).unwrap();
+        let cwd_phys = fs::canonicalize(&cwd).unwrap();
+        for absolute in [false, true] {
+            for pre in prefixes.iter() {
+                let spelling = if absolute {
+                    format!("{}/{}x", cwd.display(), pre)
+                } else {
+                    format!("{}x", pre)
+                };
+                // the directory the OS resolves the spelling's directory part to (skip spellings that leave the tree)
+                let dir_part = if absolute { format!("{}/{}", cwd.display(), pre) } else { format!("./{}", pre) };
+                let dir_phys = match fs::canonicalize(&dir_part) {
+                    Ok(d) => d,
+                    Err(_) => continue,
+                };
+                let _ = &cwd_phys;
+                let t_phys = dir_phys.join("x");
+                // bases are physical directory spellings, as every call site supplies (Env::base, target_relpath's directory
+                // derived from canonical names); a base that is itself a symbolic link is outside relpath's contract
+                for base_rel in ["", "src", "d/e", "src/lib"] {
+                    let base = top.join(base_rel);
+                    let base_phys = fs::canonicalize(&base).unwrap();
+                    let want = ref_rel(&t_phys, &base_phys);
+                    checked += 1;
+                    let got = redo::relpath(&spelling, &base);
+                    let ok = match &got {
+                        Ok(p) => *p == want,
+                        Err(_) => false,
+                    };
+                    if !ok {
+                        if fails < 40 {
+                            println!(
+                                "{{\"probe\":\"relpath\",\"input\":\"cwd=top/{} t={} base=top/{}\",\"output\":\"{}\",\"expected\":\"{}\",\"clause\":\"relpath.result\"}}",
+                                cwd_rel,
+                                spelling.replace(&top.display().to_string(), "$TOP"),
+                                base_rel,
+                                match &got { Ok(p) => esc(p.to_string_lossy().as_bytes()), Err(e) => format!("Err({})", esc(e.to_string().as_bytes())) },
+                                esc(want.to_string_lossy().as_bytes())
+                            );
+                        }
+                        fails += 1;
+                    }
+                }
+            }
+        }
+    }
+    env::set_current_dir("/").unwrap();
+    let _ = fs::remove_dir_all(&top);
+    println!("{{\"probe\":\"relpath\",\"summary\":true,\"checked\":{},\"failures\":{}}}", checked, fails);
+}
+
 fn main() {
     match env::args().nth(1).as_deref() {
         Some("tokens-exit") => tokens_exit(),
         Some("deps") => deps(),
+        Some("normpath") => normpath_probe(),
+        Some("relpath") => relpath_probe(),
         _ => {
-            eprintln!("usage: redo-replay tokens-exit|deps");
+            eprintln!("usage: redo-replay tokens-exit|deps|normpath|relpath");
             std::process::exit(2);
         }
     }
